@@ -200,7 +200,7 @@ def pingpong_plans(text: str, default: bool, d0: Doc, calls: list) -> list:
 # block sizes of the token store under the documents: every document meets every size with some of its plans, so
 # that the placeholder moves of the attribution calls land on, before and behind block boundaries and make blocks
 # split and merge (1000 = the shipped size: one block)
-LFS = [2, 3, 1000, 4, 5, 7]
+LFS = [2, 3, 1000, 4, 5, 7, (4, 'bs'), (2, 'bs'), (6, 'sb'), (3, 'bs')]
 
 
 def _chunk(arg: tuple) -> list:
@@ -210,7 +210,7 @@ def _chunk(arg: tuple) -> list:
     traces = []
     from checks import store_replay
     for dk, dd in enumerate(docs):
-        store_replay.set_load_factor([2, 1000, 3, 4][dk % 4])      # placeholder moves straddle block boundaries
+        store_replay.set_load_factor(store_replay.rot(dk))      # placeholder moves straddle block boundaries
         for fl in flavors:
             text = doclib.render(dd, fl)
             for default in (True, False):
